@@ -283,6 +283,21 @@ func (m *Model) Predict(s *Stmt) *Expect {
 		if db.Table(s.Table) != nil || s.Table == "sys_pages" || s.Table == "sys_schema" {
 			return fail(ETableExists)
 		}
+		// the catalog rows of the new table obey the row limit like any other row:
+		// sys_pages(table_name, file_offset) and one sys_schema(table_name,
+		// field_name, field_type, field_length) row per column
+		if 1+4+len(s.Table)+1+8 > MaxRowBytes {
+			return fail(ERowTooLarge)
+		}
+		for _, c := range s.Cols {
+			if 1+4+len(s.Table)+1+4+len(c.Name)+1+4+1+4 > MaxRowBytes {
+				return fail(ERowTooLarge)
+			}
+			// field_length is an INT column of sys_schema
+			if c.Len > 2147483647 || c.Len < -2147483648 {
+				return fail(EIntRange)
+			}
+		}
 		cols := append([]Col(nil), s.Cols...)
 		name := s.Table
 		return &Expect{OK: true, FailAt: -1, apply: func(m *Model, n int) {
